@@ -27,6 +27,7 @@ import (
 
 	"pgregory.net/rapid"
 
+	"github.com/krotik/ecal/engine"
 	"github.com/krotik/ecal/interpreter"
 	"github.com/krotik/ecal/parser"
 	"github.com/krotik/ecal/util"
@@ -55,6 +56,7 @@ type Case struct {
 	Late         []int      `json:"late,omitempty"`       // line selectors of break points which are set WHILE the program runs: at the LateAfter-th state visit inside a function call (as if a client sent break commands at that moment)
 	LateAfter    int        `json:"late_after,omitempty"` //
 	Noise        bool       `json:"noise,omitempty"`      // a second client keeps setting and removing a break point of ANOTHER source while the session runs (the debugger's tables change under the running threads and the commands; writers are pending almost all the time)
+	StopLate     int        `json:"stop_late,omitempty"`  // StopAll only: StopThreads is called with a quiet period (30 ms) and this many further events arrive during it - their sink threads suspend at the break point while StopThreads waits; the next StopThreads has to release them as well
 	StopAll      int        `json:"stop_all,omitempty"`   // > 0: that many sink threads are suspended at a breakpoint on several workers, then StopThreads must release every one of them
 }
 
@@ -565,8 +567,16 @@ func runCase(c Case) (fail *hx.Failure) {
 	}
 
 	// (3) completeness for resume-only sessions
+	// (a stepout given to a thread which is not inside any function call has nothing to step out of and is a resume:
+	// in a program without functions - also as the body of a sink - sessions over {resume, stepout} are predicted too)
 	resumeOnly := !c.BreakOnStart && !c.BreakOnError && len(stops) <= 400 && len(c.Late) == 0
+	noFuncs := !strings.Contains(src, "func")
+	usesStepOut := false
 	for _, cmd := range c.Cmds {
+		if cmd == "stepout" && noFuncs {
+			usesStepOut = true
+			continue
+		}
 		if cmd != "resume" {
 			resumeOnly = false
 		}
@@ -636,6 +646,9 @@ func runCase(c Case) (fail *hx.Failure) {
 	nt := (inCall && len(cmds) >= 2) || (resumeOnly && predicted >= 2)
 	rel, _ := s.HoldStats()
 	classes := []string{fmt.Sprintf("sink.%v", c.Sink), fmt.Sprintf("resume-only.%v", resumeOnly)}
+	if resumeOnly && usesStepOut {
+		classes = append(classes, fmt.Sprintf("predicted.stepout-outside-any-call.sink.%v", c.Sink))
+	}
 	switch {
 	case len(stops) == 0:
 		classes = append(classes, "stops.0")
@@ -715,7 +728,7 @@ func runStopAll(c Case) (fail *hx.Failure) {
 	}()
 	go func() {
 		defer func() { recover() }()
-		erun.Run(src, erun.Options{Name: srcName, Workers: c.StopAll, Debugger: func(erp *interpreter.ECALRuntimeProvider, vs parser.Scope) util.ECALDebugger {
+		erun.Run(src, erun.Options{Name: srcName, Workers: c.StopAll + c.StopLate, Debugger: func(erp *interpreter.ECALRuntimeProvider, vs parser.Scope) util.ECALDebugger {
 			theErp = erp
 			inner = interpreter.NewECALDebugger(vs)
 			inner.BreakOnError(false)
@@ -769,7 +782,18 @@ func runStopAll(c Case) (fail *hx.Failure) {
 	resumedBefore := nResumed
 	mu.Unlock()
 	var released bool
-	if f := hx.Guard(func() { released = inner.StopThreads(0) }); f != nil {
+	quiet := time.Duration(0)
+	if c.StopLate > 0 && theErp != nil {
+		// (the stopped threads were pool workers and are gone: the pool has c.StopLate workers left for these)
+		quiet = 30 * time.Millisecond
+		go func() {
+			time.Sleep(2 * time.Millisecond)
+			for i := 0; i < c.StopLate; i++ {
+				theErp.Processor.AddEvent(engine.NewEvent(fmt.Sprint("late", i), []string{"a", "b"}, map[interface{}]interface{}{}), nil)
+			}
+		}()
+	}
+	if f := hx.Guard(func() { released = inner.StopThreads(quiet) }); f != nil {
 		hx.ClearInflight()
 		return f
 	}
@@ -806,9 +830,51 @@ func runStopAll(c Case) (fail *hx.Failure) {
 		time.Sleep(100 * time.Microsecond)
 	}
 	time.Sleep(time.Millisecond) // the released threads delete their state and exit while we are still here
+	lateClass := "stopall.no-late-threads"
+	if c.StopLate > 0 {
+		// threads which suspended while (or after) StopThreads waited for its quiet period are suspended threads like
+		// any other: stopping all threads again has to release every one of them
+		lateWaiting := 0
+		for dl := time.Now().Add(2 * time.Second); time.Now().Before(dl); time.Sleep(200 * time.Microsecond) {
+			mu.Lock()
+			lateWaiting = nSuspend - nResumed
+			mu.Unlock()
+			if lateWaiting >= c.StopLate {
+				break
+			}
+		}
+		if lateWaiting > 0 {
+			lateClass = "stopall.late-threads-suspended-during-the-quiet-period"
+			mu.Lock()
+			rb := nResumed
+			mu.Unlock()
+			var again bool
+			if f := hx.Guard(func() { again = inner.StopThreads(0) }); f != nil {
+				hx.ClearInflight()
+				return f
+			}
+			for t0 := time.Now(); ; time.Sleep(100 * time.Microsecond) {
+				mu.Lock()
+				gone := nResumed - rb
+				mu.Unlock()
+				if gone >= lateWaiting {
+					break
+				}
+				if time.Since(t0) > stuckBound && s.ActiveHolds() == 0 {
+					hx.ClearInflight()
+					if stuckBound > 3*time.Second {
+						stuckBound = 3 * time.Second
+					}
+					return hx.Failf("stopthreads-leaves-thread-suspended", "%d sink invocations suspended at the breakpoint while StopThreads(%v) was waiting for its quiet period (or after it); %v after the next StopThreads(0) (returned %v) only %d of them have left their wait\n%s",
+						lateWaiting, quiet, time.Since(t0).Round(time.Millisecond), again, gone, src)
+				}
+			}
+			time.Sleep(time.Millisecond)
+		}
+	}
 	hx.ClearInflight()
-	key := fmt.Sprint("stopall", c.StopAll, src)
-	hx.E.Case(true, key, "stopall", fmt.Sprintf("stopall.threads.%d", len(susp)))
+	key := fmt.Sprint("stopall", c.StopAll, c.StopLate, src)
+	hx.E.Case(true, key, "stopall", fmt.Sprintf("stopall.threads.%d", len(susp)), lateClass)
 	hx.E.Sample(key, map[string]interface{}{"src": src, "suspended_threads": len(susp), "stop_all": true})
 	return nil
 }
@@ -865,8 +931,10 @@ func genCase(rt *rapid.T) Case {
 			c.Removed = append(c.Removed, pick(8, "remi"))
 		}
 	}
-	if pick(2, "resumeonly") == 0 {
+	if k := pick(8, "resumeonly"); k < 3 {
 		c.Cmds = []string{"resume"}
+	} else if k == 3 {
+		c.Cmds = [][]string{{"stepout"}, {"stepout", "resume"}, {"resume", "stepout"}}[pick(3, "so")]
 	} else {
 		for i, n := 0, 1+pick(6, "ncmds"); i < n; i++ {
 			c.Cmds = append(c.Cmds, []string{"resume", "stepin", "stepover", "stepout"}[pick(4, "cmd")])
@@ -893,6 +961,7 @@ func genCase(rt *rapid.T) Case {
 	c.Noise = pick(3, "noise") == 0
 	if pick(16, "stopall") == 0 {
 		c.StopAll = 2 + pick(3, "stopn")
+		c.StopLate = pick(3, "stoplate")
 		c.Plan = nil
 	}
 	return c
@@ -908,7 +977,7 @@ func TestExhaustive(t *testing.T) {
 		for i := 0; i < reps; i++ {
 			for n := 2; n <= 4; n++ {
 				p := &lang.Prog{Body: []*lang.S{lang.Assign(lang.Var("a"), lang.Num(fmt.Sprint(i))), lang.Rec(lang.Var("a")), lang.Mark("after")}}
-				if !yield(Case{Prog: p, StopAll: n}) {
+				if !yield(Case{Prog: p, StopAll: n, StopLate: i % 3}) {
 					return
 				}
 			}
